@@ -53,7 +53,7 @@ Section Reinit.
   Let rS := arc_radius_of NumR NumTR start radius rotation end_.
 
   Lemma rS_nz : fst rS <> 0 /\ snd rS <> 0.
-  Proof. destruct (rS_pos start radius end_ rotation Hrx0 Hry0). fold rS in *. split; lra. Qed.
+  Proof. destruct (rS_pos start radius end_ rotation Hrx0 Hry0) as [A B]. fold rS in A, B. split; lra. Qed.
 
   Lemma radius_of_stored : arc_radius_of NumR NumTR start rS rotation end_ = rS.
   Proof.
@@ -258,7 +258,13 @@ Section Scale.
     destruct rS_pos2 as [A B]. pose proof a_pos as Ha. pose proof z_pos as Hz.
     pose proof (tmpR_pos (fst rS) (snd rS) (fst z) (snd z) A B Hz) as Ht. unfold tmpR in Ht.
     unfold arc_radicand. rsimp.
-    destruct sg_cases as [[_ E]|[_ E]]; rewrite E in *; field; split; nra.
+    pose proof (sq_pos_nz sx Hsx) as Hs2.
+    assert (Hs4 : 0 < sx * sx * (sx * sx)) by nra.
+    destruct sg_cases as [[_ E]|[_ E]]; rewrite E in *; field; (split; [lra|]).
+    all: match goal with |- ?e <> 0 =>
+           replace e with (sx * sx * (sx * sx) *
+             (fst rS * fst rS * (snd z * snd z) + snd rS * snd rS * (fst z * fst z))) by ring end.
+    all: apply Rgt_not_eq, Rlt_gt, Rmult_lt_0_compat; assumption.
   Qed.
 
   Lemma radical_scale : arc_radical_of NumR NumTR false start' radius' rotation end'
